@@ -68,3 +68,7 @@ reg("C16", "runtime contracts (icontract postcondition, plain fallback) on Multi
 reg("C17", "runtime contracts on AccumulatorFactory.make_accumulator, IAdder.make_quantizer and MergeFactory quantizers; exact extreme-sum / brute-force oracles and paired-call monotonicity monitor",
     "All multiplier output types of C16 x kernel shapes with N from 1 to 2^20+1 (2^k-1, 2^k, 2^k+1; dense and conv; with/without bias) x all adder operand pairs x merge layers: N*min, N*max, mixed extremes and resolution representable; sums of extremes (all sums for small types); LSB(result) <= finest operand LSB; range covers the summed magnitudes; widening an operand never narrows bits, int_bits, interval or LSB (pairs of calls generated together).",
     "Types with int_bits > bits - sign are read as integers (f = 0), the reading under which the library's ternary/binary types are meaningful.", "5/C17")
+
+reg("C19", "runtime monitoring: brute-force loop-nest MAC counters as reference, spies (recording wrappers) on every energy helper and gate function, conservation / formula / selection oracles over recorded contributions",
+    "Generated quantized and plain models over kernel 1..5, strides 1..3, same/valid/causal, dilation, groups, channels 1..8, pooling and six merge types x memory placements {dram,sram,fixed}^2 x rd_wr_on_io x min_sram_size x quantizers: reported operation counts (qtools and estimate routes) == loop-nest counts; every energy entry >= 0 and equal to an independent re-evaluation of the documented formulas from the recorded arguments; total == sum of recorded contributions; extracted sums/profiles == sums of the selected entries; the gates consulted are the documented ones; global config and caller dictionaries unmodified.",
+    "Reference counters are self-checked (two independent counters, executed all-ones Keras layer); a reference disagreement is a harness error, never a verdict.", "5/C19")
